@@ -11,12 +11,16 @@ Record codec := { pkk : pyval -> list Z; pkv : pyval -> list Z; unpk : list Z ->
 (* ---- keys ---- *)
 Inductive put_res := PutOk (k : sqlval) (raw : bool) | PutRaise.
 
-Definition put (c : codec) (key : pyval) : put_res :=
-  match put_plan_of key with
+(* the interpretation of a put decision tree (the generated one below; the frozen released one in
+   FormatFacts.released_put) *)
+Definition put_with (plan : pyval -> put_plan) (c : codec) (key : pyval) : put_res :=
+  match plan key with
   | PutBlob r => match key with VBytes b => PutOk (SBlob b) r | _ => PutRaise end
   | PutNative r => match bind key with Bound v => PutOk v r | _ => PutRaise end
   | PutPickle r => PutOk (SBlob (pkk c key)) r
   end.
+
+Definition put (c : codec) (key : pyval) : put_res := put_with put_plan_of c key.
 
 Definition get (c : codec) (k : sqlval) (raw : bool) : option pyval :=
   if raw then column k
@@ -43,10 +47,10 @@ Definition key_eq (a b : pyval) : bool :=
   | _, _ => false
   end.
 
-(* NaN, unencodable text and streams are outside the key domain *)
+(* unencodable text and streams are outside the key domain.  float('nan') is inside: Disk.put pickles it
+   (repair of C02-F2), every NaN is the same key (key_eq: pv_same) and differs from every other key *)
 Definition key_domain (k : pyval) : bool :=
   match k with
-  | VFloat FNaN => false
   | VStr s => encodable s
   | VStream _ => false
   | _ => true
